@@ -4,6 +4,7 @@ import (
 	"fmt"
 	"go/ast"
 	"go/parser"
+	"go/token"
 	"sort"
 	"go/types"
 	"strings"
@@ -148,6 +149,26 @@ func init() {
 			return intLit(0), true
 		}
 	}
+	// go/constant (T4): ToInt keeps the integer value; Int64Val/Uint64Val are exact inside the range
+	libModels["constant.ToInt"] = func(x *Exec, st *State, e *ast.CallExpr, a []Value, _ []types.Type) (Value, bool) {
+		return a[0], true
+	}
+	libModels["constant.Int64Val"] = func(x *Exec, st *State, e *ast.CallExpr, a []Value, _ []types.Type) (Value, bool) {
+		c := asTerm(a[0])
+		v := x.fresh("i64val", SInt)
+		ci := "(constInt " + c.S + ")"
+		exact := "(and (<= (- 9223372036854775808) " + ci + ") (<= " + ci + " 9223372036854775807))"
+		st.assume("(=> " + exact + " (= " + v.S + " " + ci + "))")
+		return TupleV{v, Term{exact, SBool}}, true
+	}
+	libModels["constant.Uint64Val"] = func(x *Exec, st *State, e *ast.CallExpr, a []Value, _ []types.Type) (Value, bool) {
+		c := asTerm(a[0])
+		v := x.fresh("u64val", SInt)
+		ci := "(constInt " + c.S + ")"
+		exact := "(and (<= 0 " + ci + ") (<= " + ci + " 18446744073709551615))"
+		st.assume("(=> " + exact + " (= " + v.S + " " + ci + "))")
+		return TupleV{v, Term{exact, SBool}}, true
+	}
 	libModels["strconv.Atoi"] = func(x *Exec, st *State, e *ast.CallExpr, a []Value, _ []types.Type) (Value, bool) {
 		s := asTerm(a[0])
 		x.noteAssume("trusted: strconv.Atoi modelled by atoiVal/atoiErr of specs/common.smt2 (base 10, optional sign, int64 range)")
@@ -265,6 +286,9 @@ func (x *Exec) evalCall(e *ast.CallExpr, st *State) (Value, types.Type) {
 	}
 	if m, ok := libModels[name]; ok {
 		if v, ok := m(x, st, e, args, ats); ok {
+			if t, isT := v.(Term); isT {
+				x.rangeAssume(st, t, x.typeOf(e)) // the static result type bounds the value
+			}
 			return v, x.typeOf(e)
 		}
 	}
@@ -274,6 +298,10 @@ func (x *Exec) evalCall(e *ast.CallExpr, st *State) (Value, types.Type) {
 	if x.isOpaqueCallee(f.Decl) {
 		// declared opaque by the unit's contract: everything may change except the preserved
 		// heap fields (whose writers are enumerated by a separate frame obligation)
+		if x.con.Opts["opaque-havoc"] == "none" {
+			x.noteAssume("opaque call " + name + ": result unconstrained, heap unchanged (generation-time helpers)")
+			return x.opaqueResult(e, st), x.typeOf(e)
+		}
 		keep := map[string]bool{}
 		for _, k := range strings.Split(x.con.Opts["preserve"], ",") {
 			keep[strings.TrimSpace(k)] = true
@@ -543,6 +571,12 @@ func (x *Exec) evalBuiltin(name string, e *ast.CallExpr, st *State) (Value, type
 	case "close":
 		x.evalArgs(e.Args, st)
 		return intLit(0), nil
+	case "real", "imag":
+		v := x.evalT(e.Args[0], st)
+		return x.uf("c"+name, SInt, v), x.typeOf(e)
+	case "complex":
+		a, b := x.evalT(e.Args[0], st), x.evalT(e.Args[1], st)
+		return x.uf("ccomplex", SInt, a, b), x.typeOf(e)
 	case "min", "max":
 		a, t := x.eval(e.Args[0], st)
 		b := x.evalT(e.Args[1], st)
@@ -641,6 +675,91 @@ func (x *Exec) applyContract(c *Contract, f *types.Func, e *ast.CallExpr, args [
 			x.heapHavoc(st, a)
 		}
 	}
+	// a generator with a function-result contract yields a modelled function value
+	if len(c.FnEnsures) > 0 && sig.Results().Len() == 1 {
+		fsig, ok := sig.Results().At(0).Type().Underlying().(*types.Signature)
+		if !ok {
+			engineFail("result-fn on %s: result is not a function", calleeUnit)
+		}
+		genArgs := map[string]Value{}
+		genTypes := map[string]types.Type{}
+		for i, pn := range c.Params {
+			if i < len(args) {
+				genArgs[pn] = args[i]
+				j := i
+				if sig.Recv() != nil {
+					j = i - 1
+				}
+				if j >= 0 && j < sig.Params().Len() {
+					genTypes[pn] = sig.Params().At(j).Type()
+				}
+			}
+		}
+		for _, n := range c.Params {
+			delete(st.names, n)
+			delete(st.names, "$type:"+n)
+		}
+		if c.Trusted {
+			x.noteAssume("trusted function-result contract: " + c.Pkg + "." + c.Key)
+		}
+		return &FuncV{Model: &FnModel{Name: calleeUnit, Apply: func(x *Exec, s2 *State, fargs []Value) Value {
+			save := x.saveContractCtx()
+			defer x.restoreContractCtx(save)
+			saved := map[string]Value{}
+			bindName := func(k string, v Value, t types.Type) {
+				for _, kk := range []string{k, "$type:" + k} {
+					if old, ok := s2.names[kk]; ok {
+						saved[kk] = old
+					} else {
+						saved[kk] = nil
+					}
+				}
+				s2.names[k] = v
+				if t != nil {
+					s2.names["$type:"+k] = t
+				} else {
+					delete(s2.names, "$type:"+k)
+				}
+			}
+			for k, v := range genArgs {
+				bindName(k, v, genTypes[k])
+			}
+			for i, pn := range c.FnParams {
+				if i < len(fargs) {
+					bindName(pn, fargs[i], fsig.Params().At(i).Type())
+				}
+			}
+			var res TupleV
+			for i := 0; i < fsig.Results().Len(); i++ {
+				rt := fsig.Results().At(i).Type()
+				rv := x.freshOf(s2, "fnr", rt)
+				res = append(res, rv)
+				if i < len(c.FnResults) {
+					bindName(c.FnResults[i], rv, rt)
+				}
+			}
+			x.contract = true
+			x.assuming = true
+			for _, en := range c.FnEnsures {
+				if strings.HasPrefix(en.Prop, "mode:") && en.Prop != "mode:"+x.mode {
+					continue
+				}
+				s2.assume(x.evalBool(en.Expr, s2))
+			}
+			x.assuming = false
+			for k, old := range saved {
+				if old == nil {
+					delete(s2.names, k)
+				} else {
+					s2.names[k] = old
+				}
+			}
+			if len(res) == 1 {
+				return res[0]
+			}
+			return res
+		}}}
+	}
 	// results
 	var res TupleV
 	for i := 0; i < sig.Results().Len(); i++ {
@@ -666,7 +785,7 @@ func (x *Exec) applyContract(c *Contract, f *types.Func, e *ast.CallExpr, args [
 	}
 	oldSave := st.old
 	st.old = pre
-	if c.Opts["opaque"] != "true" {
+	if c.Opts["opaque"] != "true" && c.Opts["opaque-in"] != x.mode {
 		x.assuming = true
 		for _, en := range c.Ensures {
 			st.assume(x.evalBool(en.Expr, st))
@@ -766,6 +885,9 @@ func (x *Exec) evalSpecCall(e *ast.CallExpr, st *State) (Value, types.Type) {
 			q = "exists"
 		}
 		return Term{"(" + q + " ((" + qn + " String)) " + body + ")", SBool}, types.Typ[types.Bool]
+	case "rvInt", "rvFloat", "rvComplex", "rvString", "rvBool":
+		which := map[string]string{"rvInt": "I", "rvFloat": "F", "rvComplex": "C", "rvString": "S", "rvBool": "B"}[name]
+		return x.rvRead(st, which, x.evalT(e.Args[0], st)), nil
 	case "calledAt": // calledAt(k): the k-th function value applied through reflect.Value.Call
 		k := x.evalT(e.Args[0], st)
 		seq := asTerm(st.names["callSeq"])
@@ -843,6 +965,17 @@ func (x *Exec) evalSpecCall(e *ast.CallExpr, st *State) (Value, types.Type) {
 		s, a, b := x.evalT(e.Args[0], st), x.evalT(e.Args[1], st), x.evalT(e.Args[2], st)
 		return Term{"(str.substr " + s.S + " " + a.S + " (- " + b.S + " " + a.S + "))", SStr}, types.Typ[types.String]
 	}
+	// a generator local holding a modelled function value (dest, v0, ...), applied in a contract
+	if id, ok := e.Fun.(*ast.Ident); ok && x.inlineLitPos.IsValid() {
+		if sc := x.pkg.Types.Scope().Innermost(x.inlineLitPos); sc != nil {
+			if _, o := sc.LookupParent(id.Name, x.inlineLitPos); o != nil {
+				if fv, ok := st.env[o].(*FuncV); ok && fv.Model != nil {
+					args, _ := x.evalArgs(e.Args, st)
+					return fv.Model.Apply(x, st, args), nil
+				}
+			}
+		}
+	}
 	// contract-level predicate (macro)
 	if pr, ok := x.db.Preds[x.pkg.Types.Name()+"."+name]; ok {
 		if len(e.Args) != len(pr.Params) {
@@ -886,6 +1019,11 @@ func (x *Exec) evalSpecCall(e *ast.CallExpr, st *State) (Value, types.Type) {
 		var as []string
 		for i, a := range e.Args {
 			t := x.evalT(a, st)
+			if i < len(sig.Args) && t.Sort != sig.Args[i] && sig.Args[i] == SInt {
+				if bl, ok := unparen(a).(*ast.BasicLit); ok && bl.Kind == token.INT {
+					t = Term{bl.Value, SInt} // an integer literal passed to an Int-sorted spec parameter
+				}
+			}
 			if i < len(sig.Args) && t.Sort != sig.Args[i] {
 				engineFail("spec function %s: argument %d has sort %s, want %s", name, i, t.Sort, sig.Args[i])
 			}
@@ -898,6 +1036,52 @@ func (x *Exec) evalSpecCall(e *ast.CallExpr, st *State) (Value, types.Type) {
 			return Term{name, sig.Res}, nil
 		}
 		return Term{"(" + name + " " + strings.Join(as, " ") + ")", sig.Res}, nil
+	}
+	// method call on a program value: x.M(args) with a library model or a pure contract
+	if se, ok := e.Fun.(*ast.SelectorExpr); ok {
+		isPkg := false
+		if id, ok := se.X.(*ast.Ident); ok {
+			if _, isVal := st.names[id.Name]; !isVal && x.conScope[id.Name] == nil && x.quant[id.Name].S == "" {
+				for _, imp := range x.pkg.Types.Imports() {
+					if imp.Name() == id.Name {
+						isPkg = true
+					}
+				}
+			}
+		}
+		if !isPkg {
+			rv, rt := x.eval(se.X, st)
+			if rt == nil {
+				engineFail("contract: method %s on an untyped spec value", se.Sel.Name)
+			}
+			obj, _, _ := types.LookupFieldOrMethod(rt, true, x.pkg.Types, se.Sel.Name)
+			fn, ok := obj.(*types.Func)
+			if !ok {
+				engineFail("contract: %s is not a method of %s", se.Sel.Name, rt)
+			}
+			args, ats := x.evalArgs(e.Args, st)
+			args = append([]Value{rv}, args...)
+			ats = append([]types.Type{rt}, ats...)
+			n := calleeName(fn)
+			resT := fn.Type().(*types.Signature).Results()
+			var rtype types.Type
+			if resT.Len() > 0 {
+				rtype = resT.At(0).Type()
+			}
+			if m, ok := libModels[n]; ok {
+				if v, ok := m(x, st, e, args, ats); ok {
+					return v, rtype
+				}
+			}
+			if c := x.lookupContract(fn); c != nil && c.Pure {
+				var ts []Term
+				for _, a := range args {
+					ts = append(ts, asTerm(a))
+				}
+				return x.uf(fmt.Sprintf("fn_%s_r0", n), x.sortOf(rtype), ts...), rtype
+			}
+			engineFail("contract: method %s has neither a library model nor a pure contract", n)
+		}
 	}
 	// program-level function used in a contract: library model or package function
 	var obj types.Object
